@@ -53,6 +53,10 @@ CHECKS = {
                 technique="exhaustive enumeration of (source model x clone variant) states and of every single edit of an edit catalogue at every object of either side, with full-snapshot comparison of the untouched side",
                 text="Every model of the C02 feature catalogue (plus a source whose body nodes are sharded on captured values) is deserialised and cloned through every variant (Model.clone shallow/deep, Graph.clone, Graph.clone(allow_outer_scope_values) and strict clone of every nested body, Function.clone, GraphView.clone, functionalize). Checked: byte-identical serialisation, disjoint identity sets of graphs/nodes/values/shapes/types/metadata containers/attribute containers, no reference from the clone into the original except declared outer values, strict clones with outer references raise; then each of 36 edits (names, dtype/type/denotation, shape/dims/denotations, const_value, doc, metadata_props, meta incl. validity, attributes, inputs/outputs/uses, device annotations, node list, graph collections and fields) is applied at every object of the clone - and symmetrically of the original - and the other side's complete public snapshot must be unchanged.",
                 note="Sources are sorted first (cloner precondition); tensors may be shared, so a shared tensor's own name is not compared; depth-1 edits."),
+    "C19": dict(level="model_checking", engine="E1-bfs", design="4/C19",
+                technique="explicit-state BFS over annotate/rename/rewire/resize/clone/round-trip/(un)register histories on a real IRv11 model, annotation invariant + library checker + serialised references in every state",
+                text="From a 4-node model (a body node capturing outer values, values of known and unknown rank, two registered configurations) every history of shard (all axis/num_shards/device/stage forms on every node input/output and on a foreign value), set_pipeline_stage, replace_input_with, resize_inputs/outputs, replace_all_uses_with, rename, add/remove_device_configuration(cascade), Model.clone (shallow/deep) and an IRv11 serde round trip is executed up to depth 3 (quick: third level below two annotating calls and restricted to edit/clone/round-trip calls); the model is serialised between calls. In every state: every spec targets a current input/output of its node and a registered configuration, no negative stage / out-of-range or repeated axis / <1 shard is recorded, the library's own device-configuration check reports nothing, serialised tensor_name/configuration_id use current names; invalid requests (reference decision) must raise and raising requests must leave the snapshot unchanged.",
+                note="shard/set_pipeline_stage only receive registered configurations; remove always cascades."),
 }
 
 NOT_YET = {}
@@ -90,7 +94,7 @@ def main():
             "add_only": True,
         },
         "engines": [
-            {"name": "E1-bfs", "path": "mc/explore.py", "serves_properties": ["C01", "C06", "C20"],
+            {"name": "E1-bfs", "path": "mc/explore.py", "serves_properties": ["C01", "C06", "C19", "C20"],
              "kind_free_text": "explicit-state BFS over the real transition function; states are histories replayed on fresh real objects; dedup on canonical public snapshot"},
             {"name": "E1-seq", "path": "mc/props/c11.py", "serves_properties": ["C11"],
              "kind_free_text": "stateless enumeration of all event sequences up to a depth with trace monitors"},
